@@ -812,10 +812,10 @@ def mutate_same(data):
     d = bytearray(data); d[0] ^= 0xFF; return bytes(d)
 
 # ------------------------------------------------------------------ C08: bidirectional dry run (seeded change C08b)
-def _bisync_edit(rng, root, other, clock):
+def _bisync_edit(rng, root, other, clock, force=None):
     """one edit on one side of a bisync pair (regular files only)"""
     files = sorted(os.path.relpath(os.path.join(dp, n), root) for dp, _, fn in os.walk(root) for n in fn)
-    k = rng.below(6); t = (BASE_T + 20000 + clock) * 10**9
+    k = rng.below(6) if force is None else force; t = (BASE_T + 20000 + clock) * 10**9
     if k == 0 or not files:
         rel = rng.pick(["n%d" % clock, "sub/n%d" % clock]); p = os.path.join(root, rel); os.makedirs(os.path.dirname(p), exist_ok=True)
         open(p, "wb").write(rng.bytes(rng.range(0, 300))); os.utime(p, ns=(t, t)); return "create:" + rel
@@ -836,7 +836,7 @@ def run_bisync_dry(tier="quick", seed=1, work=None, replay=None, **kw):
                       "(create, delete, same-size edit, grow, touch, edit on both sides), then `-b --dry-run F` followed by `-b F` in the same world, "
                       "F among --conflict-resolve S, --max-delete N, --clear-bisync-state; non-trivial = at least one edit after the last real run")
     rng = Rng(seed * 1_000_033 + 808)
-    n = 16 if tier == "quick" else 200
+    n = 30 if tier == "quick" else 300
     contents = Contents()
     os.makedirs(work, exist_ok=True)
     for ci in range(n):
@@ -847,13 +847,16 @@ def run_bisync_dry(tier="quick", seed=1, work=None, replay=None, **kw):
             for root in ((A, B) if rng.chance(2, 3) else (rng.pick([A, B]),)):
                 p = os.path.join(root, rel); os.makedirs(os.path.dirname(p), exist_ok=True); open(p, "wb").write(data); os.utime(p, ns=(t, t))
         hist = []; clock = 0
-        for r in range(rng.range(0, 2)):
+        for r in range(rng.pick([0, 1, 1, 2])):
             rc, _, _ = run_sy([A, B, "-b", "--json"], case); hist.append(f"sync(rc={rc})")
             for _ in range(rng.range(0, 2)):
                 clock += 5; side = rng.pick([(A, B), (B, A)]); hist.append(("A:" if side[0] == A else "B:") + _bisync_edit(rng, side[0], side[1], clock))
         last_edits = 0
-        for _ in range(rng.range(0, 3)):
-            clock += 5; side = rng.pick([(A, B), (B, A)]); hist.append(("A:" if side[0] == A else "B:") + _bisync_edit(rng, side[0], side[1], clock)); last_edits += 1
+        synced = any(h.startswith("sync") for h in hist)
+        for e_ in range(rng.range(0, 3)):
+            # after a recorded sync, a one-sided delete / same-size edit is what the recorded state decides (half of the cases)
+            force = rng.pick([1, 2]) if (synced and e_ == 0 and rng.chance(1, 2)) else None
+            clock += 5; side = rng.pick([(A, B), (B, A)]); hist.append(("A:" if side[0] == A else "B:") + _bisync_edit(rng, side[0], side[1], clock, force)); last_edits += 1
         flags = []
         if rng.chance(1, 2): flags += ["--conflict-resolve", rng.pick(["newer", "larger", "smaller", "source", "dest", "rename"])]
         if rng.chance(1, 3): flags += ["--max-delete", str(rng.pick([0, 10, 50, 100]))]
